@@ -23,7 +23,7 @@ BATCH = 60
 
 
 def gen(rng, tier):
-    n = G.budget(120) if tier == 'quick' else 3000
+    n = G.budget(120) if tier == 'quick' else 1500
     for _ in range(n):
         kind = rng.choice(['gauss1', 'gauss2', 'gauss2', 'rmean', 'rmean'])
         nr = rng.choice([1, 2, 3, 5, 10, 40, 120] if tier == 'quick' else [1, 2, 3, 10, 40, 120, 500])
@@ -37,7 +37,7 @@ def gen(rng, tier):
             nr = max(nr, rng.choice([1, 5, 40, 70]))
             w = min(nr, rng.choice([1, 2, 3, 4, 5, nr, max(1, nr - 1), rng.randint(1, nr), 34, 40, 33]))
             yield {'k': kind, 'x': [vals() for _ in range(nr)], 'w': w, 'which': rng.choice(['filtering', 'utils'])}
-    for _ in range(G.budget(60) if tier == 'quick' else 1500):
+    for _ in range(G.budget(60) if tier == 'quick' else 600):
         # narrow kernels (radius 0 / 1 / 2 around sigma = 0.125, 0.375, 0.625) and typed integer / boolean series
         kind = rng.choice(['gauss1', 'gauss2', 'rmean', 'rmean'])
         dtype = rng.choice(['bool', 'int8', 'int8', 'uint8', 'int16', 'float32', 'list', 'int64'])
